@@ -351,6 +351,10 @@ func (e *Evaluator) evalAssignment(assignment *parser.AssignmentStmt) error {
 	if err != nil {
 		return err
 	}
+	// Basic values are copied on assignment, like on declaration, so that
+	// the target never shares a cell with another variable (for example
+	// with the built-in err and errmsg, which are updated in place).
+	val = copyOrRef(val)
 	switch n := assignment.Target.(type) {
 	case *parser.Var:
 		e.scope.update(n.Name, val)
